@@ -204,7 +204,17 @@ def gen_body(rng, vars_, nsteps=None, line_disciplined=None, crlf=None, first_li
                     b.change(k)
             elif r < 0.58:
                 b.change(k, redundant=True)
-    return b.bytes()
+    out = b.bytes()
+    # how the file ends: usually with a line break; sometimes directly after the last token (the parser's end-of-input flush),
+    # sometimes with a last timestamp that opens a step without any change and without a line break
+    r = rng.random()
+    if r < 0.15:
+        out = out.rstrip(b" \t\r\n")
+    elif r < 0.27 and nsteps > 0:
+        out = out.rstrip(b" \t\r\n") + b.nl + b"#" + str((b.tmax or 0) + rng.choice([1, 7, 1000])).encode()
+    elif r < 0.32 and nsteps > 0:
+        out = out.rstrip(b" \t\r\n") + b.nl + b"#" + str((b.tmax or 0) + 3).encode() + rng.choice([b" ", b"\r", b"\t"])
+    return out
 
 
 def request(opts, vars_, body):
